@@ -57,6 +57,9 @@ func setup(x *explore.X, kind string, plan map[string]simnet.DialPlan, tweak fun
 	if strings.Contains(kind, "handler-mode") {
 		opts.HTTPHandler = true // the http.Handler variant of the proxy (NewHTTPProxyHandler / TestingHTTPHandler)
 	}
+	if i := strings.Index(kind, "log-http-"); i >= 0 {
+		opts.LogHTTP = kind[i+len("log-http-"):] // a response modifier that may read the whole body before it is written
+	}
 	if tweak != nil {
 		tweak(&opts)
 	}
@@ -219,7 +222,7 @@ func replyFor(shape string, head bool) h1x.Msg {
 }
 
 func replyCut(x *explore.X) {
-	kind := []string{"GET", "POST", "HEAD", "GET-via-upstream", "GET-inside-MITM", "GET-handler-mode"}[x.Choose("kind", 6)]
+	kind := []string{"GET", "POST", "HEAD", "GET-via-upstream", "GET-inside-MITM", "GET-handler-mode", "GET-log-http-body", "GET-log-http-headers"}[x.Choose("kind", 8)]
 	shape := []string{"cl", "chunked", "eof"}[x.ChooseFree("shape", 3)]
 	rst := x.ChooseFree("reset", 2) == 1
 	m := replyFor(shape, false)
@@ -294,9 +297,12 @@ func replyCut(x *explore.X) {
 		}
 		if len(rs.Msgs) > 0 {
 			got := rs.Msgs[0]
-			if got.Status == 200 && shape == "eof" && got.Framing == "eof" && e.clientEOF() && bytes.Equal(got.Body, wire[len(head):k]) {
+			if got.Status == 200 && shape == "eof" && got.Framing == "eof" && e.clientEOF() && bytes.HasPrefix(wire[len(head):k], got.Body) {
 				// A connection-delimited origin message declares no length: all the proxy can do when the origin
-				// aborts is to relay what arrived and close, which is the "closed connection" outcome of the statement.
+				// aborts is to relay what it had read and close, which is the "closed connection" outcome of the
+				// statement. (A reset may discard octets that had arrived but were not read yet - on real sockets
+				// too - and a body-logging modifier that failed to read the body to its end forwards none of it:
+				// any prefix of what arrived is accepted, never an octet the origin did not send.)
 				break
 			}
 			if got.Status == 200 {
